@@ -41,9 +41,10 @@ def classify_e2e(case):
     obs = case.get("_obs", {})
     route = case.get("route", "?")
     own = case.get("own_of") or ""
-    if obs.get("tag_a") == obs.get("tag_b") or obs.get("tag_m") in (obs.get("tag_a"), obs.get("tag_b")):
+    tags = [obs.get(k) for k in ("tag_a", "tag_b", "tag_m", "tag_t") if obs.get(k)]
+    if len(set(tags)) != len(tags):
         return "e2e-two-instances-emit-the-same-via-element"
-    looped = route in ("AA", "ABA", "MM") or own != ""
+    looped = route in ("AA", "ABA", "MM", "ATA") or own != ""
     if looped and obs.get("status") != 400:
         kind = "loop-not-refused"
     elif looped and obs.get("contacts", 0) != 0:
